@@ -12,6 +12,8 @@ use text_utils::metrics::{
 use text_utils::text::match_words;
 
 const WORDS: [&str; 6] = ["x", "X", "y", "xy", "Y", "zz"];
+/// the same shape with non-ASCII letters (case pairs outside ASCII, a letter whose upper case is two letters)
+const WORDS_UNI: [&str; 6] = ["ü", "Ü", "ж", "üж", "Ж", "ßß"];
 const SEPS: [&str; 4] = [" ", "\t", "\n", "  "];
 
 struct WInt {
@@ -42,7 +44,7 @@ fn text_from(case: &Value, key: &str, sep: usize) -> String {
         return s.to_string();
     }
     let slots_key = format!("{key}slots");
-    let ws: Vec<&str> = case[slots_key.as_str()].as_array().unwrap().iter().map(|x| WORDS[x.as_u64().unwrap() as usize - 1]).collect();
+    let ws: Vec<&str> = case[slots_key.as_str()].as_array().unwrap().iter().map(|x| if get_str(case, "walpha") == "uni" { WORDS_UNI } else { WORDS }[x.as_u64().unwrap() as usize - 1]).collect();
     ws.join(SEPS[sep % SEPS.len()])
 }
 
@@ -71,7 +73,7 @@ pub fn gen_match(seed: u64, n: usize) -> Vec<Value> {
     let mut rng = ChaCha8Rng::seed_from_u64(seed);
     (0..n)
         .map(|_| {
-            let pool = ["the", "The", "a", "A", "cat", "CAT", "dog", "x", "", "é", "É"];
+            let pool = ["the", "The", "a", "A", "cat", "CAT", "dog", "x", "", "é", "É", "über", "Über", "ÜBER", "ж", "Ж"];
             let mk = |rng: &mut ChaCha8Rng| -> String {
                 let len = rng.random_range(0..=12);
                 (0..len).map(|_| pool[rng.random_range(0..pool.len())]).filter(|w| !w.is_empty()).collect::<Vec<_>>().join(SEPS[rng.random_range(0..4)])
